@@ -15,7 +15,7 @@ package weighted_sum
 //@      typeis(x, WeightedSumAddedCriterion) && exists k int :: 0 <= k && k < len(x.(WeightedSumAddedCriterion).weights) && x.(WeightedSumAddedCriterion).weights[k].Id == id
 
 //@ func (*weightedSumParams).Criterion
-//@   property C07 C15 C18 C03
+//@   property C07 C15 C18 C03 C16 C19
 //@   requires p.weightedCriteria != nil
 //@   panics_iff [missing] !(exists k int :: 0 <= k && k < len(*p.weightedCriteria) && (*p.weightedCriteria)[k].Id == criterion)
 //@   ensures [first_match] exists k int :: 0 <= k && k < len(*p.weightedCriteria) && result == (*p.weightedCriteria)[k] && result.Id == criterion
@@ -53,16 +53,16 @@ package weighted_sum
 //@ spec usum(a model.AlternativeWithCriteria, cs []model.WeightedCriterion, n int) real = n <= 0 ? 0.0 : usum(a, cs, n - 1) + model.signed(a, cs[n - 1].Criterion)
 
 //@ func WeightedSum
-//@   property C03
+//@   property C03 C01 C04
 //@   ensures [single_value] fresh(result) && typeis(result.Evaluation, model.EvaluationSingleValue) && result.Alternative == alternative
-//@   ensures [weighted] model.val(*result) == wsum(alternative, criteria, len(criteria))
+//@   ensures [C03 weighted] model.val(*result) == wsum(alternative, criteria, len(criteria))
 //@   ensures [unweighted_sum] model.val(*result) == usum(alternative, criteria, len(criteria))
-//@   loop 1 invariant [weighted] total == wsum(alternative, criteria, iter)
+//@   loop 1 invariant [C03 weighted] total == wsum(alternative, criteria, iter)
 //@   loop 1 invariant [unweighted_sum] total == usum(alternative, criteria, iter)
 
 // the per-alternative evaluation closure of Evaluate: WeightedSum of the alternative over the parameters' weighted criteria
 //@ func (*WeightedSumPreferenceFunc).Evaluate$1
-//@   property C03
+//@   property C03 C01 C04
 //@   requires params.weightedCriteria != nil
 //@   ensures [is_weighted_sum] result != nil && typeis(result.Evaluation, model.EvaluationSingleValue) && result.Alternative == *alternative
 //@             && model.val(*result) == usum(*alternative, *params.weightedCriteria, len(*params.weightedCriteria))
@@ -91,10 +91,16 @@ package weighted_sum
 //@             && len(*result.(weightedSumParams).weightedCriteria) == len(dm.Criteria)
 //@             && forall i int :: 0 <= i && i < len(dm.Criteria) ==> (*result.(weightedSumParams).weightedCriteria)[i].Criterion == dm.Criteria[i]
 //@ func (*WeightedSumPreferenceFunc).Identifier
-//@   property C20
+//@   property C20 C03
 //@   nopanic
 //@   ensures [name] result == "weightedSum"
 //@ func (*WeightedSumPreferenceFunc).MethodParameters
-//@   property C20
+//@   property C20 C03
 //@   nopanic
 //@   ensures [schema_of_the_weights_parameter] typeis(result, model.WeightType)
+
+// ---- wire format: the JSON names under which requests are read and responses are written (struct tags; encoding/json
+// itself is outside the verified code).  A renamed or omitempty field changes what a client sees without changing any Go value.
+//@ wire WeightedSumAddedCriterion
+//@   property C01 C07 C20
+//@   json Weights=weights
